@@ -36,6 +36,7 @@ from abel import _deprecated, _deprecate
 
 # cache basis
 _basis = None
+_cols = None  # image size the cached basis was made for
 _los = None   # legendre_orders string
 _pas = None   # proj_angles string
 _radial_step = None
@@ -546,7 +547,7 @@ def get_bs_cached(cols, basis_dir=None, legendre_orders=[0, 2],
     """
 
     # cached basis
-    global _basis, _los, _pas, _radial_step, _clip
+    global _basis, _cols, _los, _pas, _radial_step, _clip
 
     # legendre_orders string (with separators: [1, 2] is not [12])
     los = '-'.join(map(str, legendre_orders))
@@ -557,8 +558,8 @@ def get_bs_cached(cols, basis_dir=None, legendre_orders=[0, 2],
     if _basis is not None:
         # check basis array sizes, warning may not be unique
         if _basis.shape == (2*cols, cols+1):
-            if _los == los and _pas == pas and _radial_step == radial_step and\
-               _clip == clip:
+            if _cols == cols and _los == los and _pas == pas and \
+               _radial_step == radial_step and _clip == clip:
                 if verbose:
                     print('Using memory cached basis')
                 return _basis
@@ -570,8 +571,9 @@ def get_bs_cached(cols, basis_dir=None, legendre_orders=[0, 2],
     def remember(basis):
         # (the parameters are remembered together with the basis itself, after
         #  loading or generating it succeeded)
-        global _basis, _los, _pas, _radial_step, _clip
+        global _basis, _cols, _los, _pas, _radial_step, _clip
         _basis = basis
+        _cols = cols
         _los = los
         _pas = pas
         _radial_step = radial_step
@@ -629,9 +631,10 @@ def cache_cleanup():
     None
     """
 
-    global _basis, _los, _pas, _radial_step, _clip
+    global _basis, _cols, _los, _pas, _radial_step, _clip
 
     _basis = None
+    _cols = None
     _los = None
     _pas = None
     _radial_step = None
